@@ -28,3 +28,7 @@ def register_polars_backends(
     DataFrameSchema.register_backend(pl.LazyFrame, DataFrameSchemaBackend)
     Column.register_backend(pl.LazyFrame, ColumnBackend)
     Check.register_backend(pl.LazyFrame, PolarsCheckBackend)
+    # validate accepts a pl.DataFrame as well (it is validated as a LazyFrame):
+    # an error report about the caller's object needs its back end too
+    DataFrameSchema.register_backend(pl.DataFrame, DataFrameSchemaBackend)
+    Column.register_backend(pl.DataFrame, ColumnBackend)
